@@ -107,7 +107,7 @@ func storageSources(p *an.Prog) (ifaceMethods map[*types.Func]bool, fns map[*ssa
 							return
 						}
 						// a fresh error built on the error edge of a storage call (fmt.Errorf("…%v", err))
-						if cal := x.Call.StaticCallee(); cal != nil && (an.FuncKey(cal) == "fmt.Errorf" || an.FuncKey(cal) == "errors.New") {
+						if cal := x.Call.StaticCallee(); cal != nil && (an.CanonKeyOf(cal) == "fmt.Errorf" || an.CanonKeyOf(cal) == "errors.New") {
 							for _, g := range p.Guards(x.Block()) {
 								if g.Op == token.NEQ && g.Y != nil && an.IsNilConst(g.Y) {
 									gv := g.X
@@ -506,15 +506,21 @@ func runC18(c *report.Ctx) {
 			}
 		}
 		succ := p.SuccessBlocks(pc)
-		s2 := &an.Search{P: p, Fn: cl, Cut: isStoreToCell, GoalBlock: func(nb, pred *ssa.BasicBlock) bool {
-			// entering the producer's success continuation without having stored the id
-			for _, sb := range succ {
-				if nb == sb {
-					return true
+		// (the producer's own error edge is not followed: nothing was cached there)
+		errEdge := map[[2]*ssa.BasicBlock]bool{}
+		for _, sb := range succ {
+			if len(sb.Preds) == 1 {
+				for _, o := range sb.Preds[0].Succs {
+					if o != sb {
+						errEdge[[2]*ssa.BasicBlock{sb.Preds[0], o}] = true
+					}
 				}
 			}
-			return false
-		}}
+		}
+		s2 := &an.Search{P: p, Fn: cl, Cut: isStoreToCell,
+			CutEdge: func(from, to *ssa.BasicBlock) bool { return errEdge[[2]*ssa.BasicBlock{from, to}] },
+			// leaving the transaction after the producer succeeded without having stored the id
+			GoalReturn: func(r *ssa.Return, pred *ssa.BasicBlock) bool { return true }}
 		if w := s2.Run(b, idx, nil); w != nil {
 			c.Fail(key2, "the wallet id used for cache repair is assigned only after later steps of the transaction: if one of them fails the repair is a no-op on the empty id and the keystore cached by "+sk(prod)+" stays", posOf(c, pc), w...)
 		} else {
@@ -529,7 +535,7 @@ func runC18(c *report.Ctx) {
 			// guarded by finish and err != nil
 			ok := false
 			for _, f := range []*ssa.Function{ar} {
-				for _, af := range append([]*ssa.Function{f}, f.AnonFuncs...) {
+				for _, af := range append([]*ssa.Function{f}, closuresOf(p, f)...) {
 					for _, s := range calls(af, updKs) {
 						_ = s
 						ok = true
